@@ -270,7 +270,26 @@ def records_case(acc, di, atts):
     acc.guard('records_ok')
 
 
+def sweep_stale_scratch(max_age_s=3600):
+    """Workers are killed, not joined, so their atexit clean-up does not always run: drop scratch directories of earlier runs."""
+    import time
+    work = os.path.join(VERIF, '.work')
+    try:
+        names = os.listdir(work)
+    except OSError:
+        return
+    now = time.time()
+    for n in names:
+        d = os.path.join(work, n)
+        try:
+            if n.startswith('c19_') and now - os.path.getmtime(d) > max_age_s:
+                shutil.rmtree(d, True)
+        except OSError:
+            pass
+
+
 def units(tier):
+    sweep_stale_scratch()
     us = []
     n_atts = 27 + len(UNKNOWN)
     for di in range(len(TEXTS)):
